@@ -106,7 +106,7 @@ var c28SearchArgs = []string{
 	"arr=(1 2)", "x+=1", "'x=a b'", "=", "'='", "1", "0", "EXIT", "ERR", "INT", "'echo hi'", "abc", "a:", ":a", "ab:c",
 	"g1", "g0", "g99", "file", "sub", "nofile", ".", "..", "/", "~", "'*'", "'?'", "'['", "]", "'('", "')'", "!", "-a", "-o",
 	"-eq", "-lt", "=~", "==", "-z", "-f", "%s", "%d", "%5s", "%-5d", "%c", "%b", "%q", "%x", "%%", "%", "'%*d'", "'\\x'",
-	"'\\0'", "'\\u00e9'", "pipefail", "errexit", "extglob", "nosuch", "echo", "shift", "f", "'a b'", "世界",
+	"'\\0'", "'a\\0b\\n'", "'\\u00e9'", "pipefail", "errexit", "extglob", "nosuch", "echo", "shift", "f", "'a b'", "世界",
 }
 
 func c28SearchArg(r *Rand, negOK bool) string {
@@ -884,7 +884,6 @@ func c28Mutate(r *Rand, seeds []string, s string) string {
 
 func c28OptsRequest(r *Rand) (string, []string) {
 	var toks []string
-	stdioSeen := false
 	n := r.Intn(6)
 	for k := 0; k < n; k++ {
 		switch r.Intn(9) {
@@ -893,13 +892,8 @@ func c28OptsRequest(r *Rand) (string, []string) {
 			var args []string
 			for j := 0; j < m; j++ {
 				a := r.Pick(c28ArgPool)
-				// known finding C28-params-o-nil-stdout: `-o`/`+o` listings before any StdIO option
-				if !stdioSeen && len(a) >= 2 && (a[0] == '-' || a[0] == '+') && a != "--" && strings.Contains(a[1:], "o") {
-					continue
-				}
 				args = append(args, hx(a))
 			}
-			// a value for a preceding -o is harmless; "-" entries are kept
 			toks = append(toks, "P:"+strings.Join(args, ","))
 		case 3:
 			toks = append(toks, "D:"+hx(r.Pick([]string{"", "@", "@/sub", "@/file", "@/nosuch", "sub", ".", "/", "\x00", "@/sub/../sub/"})))
@@ -919,7 +913,6 @@ func c28OptsRequest(r *Rand) (string, []string) {
 			}
 		case 5:
 			toks = append(toks, "S:"+r.Pick([]string{"n", "b", "f"})+r.Pick([]string{"n", "b", "f"})+r.Pick([]string{"n", "b", "f"}))
-			stdioSeen = true
 		case 6:
 			toks = append(toks, "I:"+r.Pick([]string{"0", "1"}))
 		default:
